@@ -116,7 +116,14 @@ EDITS = [
     ('nc-unbounded-validation-caches', ['C16', 'C19'], 'silent', [(UT,
         "    while len(c) >= maxlen:\n        c.popitem()     # drops the most recent entry, as before, without iterating a shared dict\n",
         "")]),
-    ('nc-fifo-eviction', ['C16', 'C19'], 'silent', [(UT,
+    # FIFO eviction is a fine policy (C19: silent).  Written as c.pop(next(iter(c))) it was ALSO listed as a C16
+    # control until pre-emption inside a line existed: a switch between iter(c) and next() while another thread
+    # inserts raises 'dictionary changed size during iteration' - a real race (CPython checks for a switch
+    # after every call), invisible at line granularity.  So: a control for C19, a mutant for C16.
+    ('nc-fifo-eviction', ['C19'], 'silent', [(UT,
+        "        c.popitem()     # drops the most recent entry, as before, without iterating a shared dict\n",
+        "        c.pop(next(iter(c)), None)\n")]),
+    ('m-fifo-eviction-iter-then-next-on-one-line', ['C16'], 'violation', [(UT,
         "        c.popitem()     # drops the most recent entry, as before, without iterating a shared dict\n",
         "        c.pop(next(iter(c)), None)\n")]),
     ('nc-explicit-state-rank-table', ['C02', 'C03', 'C08'], 'silent', [(HJ,
